@@ -58,6 +58,10 @@ EXPLANATION += (
     " Round 5: leaves_to_compare answers through get_all_leaf_pairs or a short-cut tested on the parent's own children (R-MUST/pairs-from-the-tree)."
 )
 
+EXPLANATION += (
+    ' Round 6: the rows numbered when a tree is built from an h5ad file are the obs rows as read (R-PROV/rows-are-file-positions); memo keys are compared by access path.'
+)
+
 RULE_TEXT = (
     "one obligation per constructor path, per attribute-assignment site, "
     "per mutation candidate, per helper parameter, per accessor x caller, "
@@ -90,6 +94,7 @@ def check(ctx):
     check_release_reader_records_all(ctx)
     check_node_identity(ctx, ('taxonomy.',), floor=3)
     check_pairs_from_tree(ctx)
+    check_rows_are_file_positions(ctx)
     from .C05 import sweep_generic_rules
     sweep_generic_rules(ctx, ('taxonomy.',))
 
@@ -889,3 +894,85 @@ def check_pairs_from_tree(ctx):
     if not seen_routine:
         raise AnalysisError('leaves_to_compare no longer returns the '
                             'result of get_all_leaf_pairs')
+
+
+ROW_PRESERVING = {'copy', 'astype', 'fillna', 'rename', 'to_dict',
+                  'reset_index', 'infer_objects', 'convert_dtypes'}
+
+
+def check_rows_are_file_positions(ctx):
+    """building the tree from an h5ad file numbers the cells of each leaf
+    by their position among the records it is given, and those numbers
+    are later used as row numbers of the file.  The records therefore
+    have to be the file's obs rows, all of them, in file order: between
+    reading the table and numbering the rows only operations that keep
+    every row in place (selecting columns, copying, casting, filling
+    missing values) may occur.  Dropping, filtering, sorting or sampling
+    rows shifts every later cell to another leaf."""
+    db = ctx.db
+    rule = 'R-PROV/rows-are-file-positions'
+    fi = db.fn('taxonomy.utils:get_taxonomy_tree_from_h5ad')
+    builder = db.fn('taxonomy.utils:get_taxonomy_tree')
+    ctx.touch(fi)
+    cfg = cfg_of(fi)
+    rd = rd_of(fi)
+    ex = Expander(fi)
+    n = 0
+    for node in cfg.nodes:
+        if node.id not in rd.live:
+            continue
+        for c in cfg.calls_in(node):
+            if resolve_callee(db, fi, c) is not builder:
+                continue
+            mapping, _ = bind_args(builder, c)
+            a = mapping.get('obs_records')
+            if a is None:
+                continue
+            n += 1
+            t = ex.expand(a, node.id)
+            bad = None
+            cur = t
+            steps = 0
+            while steps < 20:
+                steps += 1
+                if cur[0] == 'call' and T.call_name(cur) \
+                        == 'read_df_from_h5ad':
+                    break
+                if cur[0] == 'call' and cur[1][0] == 'attr':
+                    nm = cur[1][2]
+                    if nm not in ROW_PRESERVING:
+                        bad = f'.{nm}(...)'
+                        break
+                    if nm == 'reset_index' and not any(
+                            k == 'drop' for (k, _v) in cur[3]):
+                        pass
+                    cur = cur[1][1]
+                    continue
+                if cur[0] == 'sub':
+                    # column selection: a name, a list of names, or
+                    # something made of the hierarchy parameter
+                    idx = cur[2]
+                    if idx[0] == 'const' or T.params_in(idx) <= {
+                            'column_hierarchy'} and not any(
+                                x[0] in ('cmp', 'unop') for x in
+                                T.subterms(idx)):
+                        cur = cur[1]
+                        continue
+                    bad = f'[{fmt_term(idx)[:40]}]'
+                    break
+                if cur[0] == 'call' and T.call_name(cur) in ('list',):
+                    cur = cur[2][0] if cur[2] else cur
+                    continue
+                bad = fmt_term(cur)[:50]
+                break
+            ok = bad is None
+            ctx.ob(rule, f'{fi.name}:records#{n - 1}', fi.loc(c), ok,
+                   'the records numbered are the obs rows as read, all of '
+                   'them, in file order' if ok else
+                   f'between reading obs and numbering its rows stands '
+                   f'`{bad}`, which does not keep every row in place: the '
+                   'row numbers stored in the tree no longer point at the '
+                   'cells they were taken from')
+    if n == 0:
+        raise AnalysisError('get_taxonomy_tree_from_h5ad no longer hands '
+                            'obs records to get_taxonomy_tree')
